@@ -368,3 +368,12 @@ def run_series_functions(cx):
     b = cx.fn(f'{S1}::in_interval')
     if b:
         cx.expect('EXPR', 'Series1::in_interval', cx.retval(b), '(call *Series1::between (param self) (field min (param interval)) (field max (param interval)))', 'in_interval = between(min, max)', where=b.file)
+
+
+def run_thorough(cx):
+    """thorough tier: the generic evaluators this property relies on must fire on their positive fixture twins"""
+    from rules import fixture_check as FX
+    FX.enc(cx)
+    FX.txn(cx)
+    from vpa import witness as W
+    W.check(cx, ['C17DomainNoIndexMut', 'C17DomainValuesPrivate'])
